@@ -463,6 +463,9 @@ class TCPTransport(Transport):
             conn.send(conn.recvRandKey)
         else:
             self._sendSelfAddress(conn)
+            if conn.state != CONNECTION_STATE.CONNECTED:
+                # Sending failed: _onDisconnected has already run (and may have started a new connection attempt).
+                return
             # The onMessageReceived callback is configured in addNode already.
             self._onNodeConnected(self._connToNode(conn))
 
